@@ -33,7 +33,8 @@ func MakeBitMasks(instruction []byte, bitmaskData []byte) (Bitmask, ExitReason) 
 		if bitmaskData[i/8]&(1<<(i%8)) > 0 {
 			bitmask[i] = 0x01
 
-			if i == 0 || IsBlockTerminator(instruction[prev]) {
+			// (GP A.5) ϖ only contains positions that hold a valid opcode
+			if (i == 0 || IsBlockTerminator(instruction[prev])) && IsValidOpcode(instruction[i]) {
 				bitmask[i] |= 0x02
 			}
 
